@@ -239,3 +239,21 @@ func Recv(r MsgReceiver) ([]byte, error) {
 	m.Free()
 	return b, nil
 }
+
+
+// BytesSender is what sockets and contexts have in common on the byte-slice send side.
+type BytesSender interface {
+	Send([]byte) error
+}
+
+// SendBytes sends b the way an application is entitled to: from a buffer of its own that it
+// overwrites as soon as Send has returned (Send copies; the buffer stays the caller's).  Whatever
+// the library transmits later - queued writes, retransmissions, fan-out - must still be b.
+func SendBytes(s BytesSender, b []byte) error {
+	buf := append([]byte{}, b...)
+	err := s.Send(buf)
+	for i := range buf {
+		buf[i] ^= 0x5a
+	}
+	return err
+}
